@@ -253,7 +253,9 @@ def explore(job):
                     w2 = norm(crash.window(j2, k2, t2, ROOT))
                     out["fail"].append({"sig": dict(sig2, window=w2, strategy=base["strategy"], chain=True,
                                                     failure=sig2["oracle"] + (":" + sig2["exc"] if "exc" in sig2 else ""),
-                                                    phase=phase(j2, k2, t2, base["strategy"])),
+                                                    # the phase of a second kill is judged on the whole history of the directory
+                                                    phase=phase(list(j[:k]) + ([j[k]] if torn else []) + list(j2),
+                                                                k + (1 if torn else 0) + k2, t2, base["strategy"])),
                                         "detail": det2, "chain": [[k, torn], [k2, t2]], "nit": base["nit"]})
         if sig is not None:
             out["fail"].append({"sig": dict(sig, window=w, strategy=base["strategy"],
